@@ -5,7 +5,7 @@ css_matcher.scan/match/balanced_*/split_value; a reported range outside
 0 <= start <= end <= len(source); an HTML tag range that is not `<name...>`; tags out of
 order or overlapping; match() != balanced_outward()[0]; outward entries that do not
 strictly contain each other and the position; inward entries that are not nested."""
-from .. import core, enum, gen_css, gen_html
+from .. import core, enum, gen_css, gen_html, stretch
 
 ID = 'C16'
 RULE = ('cases = (language, source string) checked at every position -1..len+1 (HTML: both xml modes); exhaustive strings up to the bound over '
@@ -256,6 +256,15 @@ def run_shard(desc, ctx):
                 mon.check(lang, s, lang + ':enum-sampled')
         return
     rng = ctx.rng
+    # near misses (vmon/stretch.py): long runs of ordinary characters inside the constructs the scanners read with their own loops or patterns -
+    # a string left open with a backslash at the end of the file, a string continued over a line break, a comment, a tag name, an attribute value
+    for tpl in ['a { content: "%s\\', "a{b:'%s\\", 'a { b: "%s\\\nthen"; c: d }', 'a { b: "%s\\\r\nthen" }', '"%s\\', 'a { /* %s', 'a { b: url(%s', '@media (%s { a { b: c } }',
+                'a { %s: x; y: z }', '%s { a: b }', 'a { b: %s }']:
+        for _ in range(3):
+            mon.check('css', tpl.replace('%s', stretch.near_miss(rng)), 'css:near-miss-run', rng)
+    for tpl in ['<%s', '<a %s', '<a b="%s', '<a b=%s>', '<!-- %s', '<a><%s></a>', '<%s/>x', '</%s', '<a %s=1 c>t</a>', '<?%s', '<script>%s', '<a b={%s>']:
+        for _ in range(3):
+            mon.check('html', tpl.replace('%s', stretch.near_miss(rng)), 'html:near-miss-run', rng)
     for k in range(desc['ndocs']):
         # a document while it is being typed: cut right after EACH tag (after the open tag of a script / style element nothing is left to skip)
         for _ in range(6):
